@@ -414,6 +414,9 @@ func c07ErrorPaths(r *rt.Rec, rng *rand.Rand, wrap func(storage.Store) storage.S
 	add(&storage.LookupOptions{LatestAnchor: true}, false)
 	add(storage.DefaultLookup, false)
 	add(&storage.LookupOptions{LowerAnchor: &t3, UpperAnchor: &t1, MaxElements: 1, Offset: 9}, false)
+	add(&storage.LookupOptions{Offset: 2}, false) // a page offset without a page size
+	add(&storage.LookupOptions{Offset: 1, LatestAnchor: true}, false)
+	add(&storage.LookupOptions{MaxElements: 2, Offset: 1}, false)
 	for _, m := range ref.Methods {
 		for _, t0 := range []*triple.Triple{ts[0], ts[3], ts[7], gen.MustTriple(gen.AbsentNode, gen.MustImm("absent"), triple.NewNodeObject(gen.AbsentNode))} {
 			q := ref.Query{Method: m}
